@@ -98,7 +98,7 @@ m("c11-guard-off", EX, "    for _ in range(100):\n        if TYPE_CHECKING:", " 
 m("c11-exiting-path-lookup", GL, "                try:\n                    frame = _extract.extract_outermost(mgr.gen)\n                except RuntimeError:  # no frames\n                    pass\n                else:\n                    return unwrap_context_generator(frame, context)", "                pass", "C11", "ctx312")
 # ---- C12 -------------------------------------------------------------------
 m("c12-registry-plain-dict", CD, "        registry = IdentityDict[types.CodeType, Callable[Concatenate[T, P], R]]()", "        registry = dict()", "C12", "reg312")
-m("c12-startswith", CD, "                if isinstance(const, types.CodeType) and const.co_name == name:", "                if isinstance(const, types.CodeType) and const.co_name.startswith(name):", "C12", "reg312")
+m("c12-startswith", CD, "            if isinstance(const, types.CodeType) and const.co_name == name:", "            if isinstance(const, types.CodeType) and const.co_name.startswith(name):", "C12", "reg312")
 m("c12-f3-revert", CU, "        if hide_line:\n            frame.hide_line = True\n", "", "C12", "reg312")
 m("c12-decorator-drops-prune", CU, "            hide_line=hide_line,\n            prune=prune,", "            hide_line=hide_line,", "C12", "reg312")
 # ---- C13 -------------------------------------------------------------------
@@ -142,6 +142,18 @@ m("neutral-rename-local", EX, "        frame, depth = to_elaborate.popleft()\n  
 m("neutral-equivalent-condition", LL, "    if offs < 0:\n        return None", "    if not offs >= 0:\n        return None", "C01", "prog312", kind="neutral")
 m("neutral-glue-order", GL, "    with glue_lock:\n        module_items = tuple(sys.modules.items())", "    with glue_lock:\n        module_items = tuple(list(sys.modules.items()))", "C17", "hist312,thr312", kind="neutral")
 m("neutral-format", TY, '        start_leaf = "+ " if opts.ascii_only else "╚ "', '        start_leaf = ("+ " if opts.ascii_only else "╚ ")', "C18", "fmt312", kind="neutral")
+
+
+EQUIVALENT = {
+    "c03-asend-first-referent": "the async generator is the first referent of its asend/athrow object",
+    "c06-agen-left-open": "the type-discovery async generator is never started on these interpreters, so closing it is a no-op and it is freed with the function's locals",
+    "c07-retry-break": "leaving the loop by break leaves `lasti` unbound: inspect_frame raises (NameError), i.e. the snapshot is rejected, which the property allows",
+    "c07-read-owned-by-frame-object": "for a finished frame no blocks are reported (F10), so whatever is read from its cleared stack is never used",
+    "c10-identity-vs-equality": "items of the generated worlds have identity equality; the documentation does not say whether 'ends with next_inner' means identity or equality",
+    "c15-parent-stop": "on CPython a greenlet's stack ends at f_back None; the parent's gr_frame test only matters on PyPy",
+    "c16-better-origin-always": "since F5 a non-generator-like origin is dropped when the Frame is built, so preferring it changes nothing observable",
+    "c18-blank-lines": "cosmetic: an extra blank separator line; the reader skips blank lines",
+}
 
 
 def sh(cmd, env=None, cwd=None, timeout=1800):
@@ -188,7 +200,12 @@ def main(argv):
             if x["kind"] == "neutral":
                 res["status"] = "ok-quiet" if rc == 0 else "FALSE-ALARM"
             else:
-                res["status"] = "killed" if rc == 1 and kinds else ("survived" if rc == 0 else "harness-error")
+                # exit 2 together with violation kinds: the mutated ctypes code also killed a
+                # worker of a leg where a crash is a harness error; the violation still fired
+                res["status"] = "killed" if rc == 1 and kinds else ("survived" if rc == 0 else ("killed+harness-error" if kinds else "harness-error"))
+                if x["id"] in EQUIVALENT and res["status"] == "survived":
+                    res["status"] = "survived(equivalent)"
+                    res["why_equivalent"] = EQUIVALENT[x["id"]]
             if rc == 2:
                 res["output_tail"] = out[-800:]
         finally:
@@ -202,8 +219,8 @@ def main(argv):
         with open(path, "w") as f:
             json.dump(results, f, indent=1, sort_keys=True)
     tot = [r for r in results.values() if r["kind"] == "mutant"]
-    killed = [r for r in tot if r.get("status") == "killed"]
-    print("mutants killed %d / %d; survivors: %s" % (len(killed), len(tot), sorted(k for k, r in results.items() if r["kind"] == "mutant" and r.get("status") != "killed")))
+    killed = [r for r in tot if str(r.get("status", "")).startswith("killed")]
+    print("mutants killed %d / %d; not killed: %s" % (len(killed), len(tot), sorted((k, r.get("status")) for k, r in results.items() if r["kind"] == "mutant" and not str(r.get("status", "")).startswith("killed"))))
     print("neutral edits: %s" % dict((k, r["status"]) for k, r in results.items() if r["kind"] == "neutral"))
 
 
